@@ -118,12 +118,12 @@ theorem onlyAdds_captured {α : Type} (x x' : RM α) (hx : OnlyAdds x x') : Only
   · left; unfold RM.captured; rw [heq]
   · right; exact ⟨e, o, by unfold RM.captured; rw [he], hk⟩
 
-theorem onlyAdds_cleanup (x x' : RM Unit) (c : RC → RC) (hx : OnlyAdds x x') :
-    OnlyAdds (RM.withCleanup x c) (RM.withCleanup x' c) := by
+theorem onlyAdds_bracket {α : Type} (enter : RC → RC) (x x' : RM α) (leave : RC → RC → RC) (hx : OnlyAdds x x') :
+    OnlyAdds (RM.bracket enter x leave) (RM.bracket enter x' leave) := by
   intro rc o
-  rcases hx rc o with heq | ⟨e, o', he, hk⟩
-  · left; unfold RM.withCleanup; rw [heq]
-  · right; exact ⟨e, o', by unfold RM.withCleanup; rw [he], hk⟩
+  rcases hx (enter rc) o with heq | ⟨e, o', he, hk⟩
+  · left; unfold RM.bracket; rw [heq]
+  · right; exact ⟨e, o', by unfold RM.bracket; rw [he], hk⟩
 
 def onlyAddsRel : RMRel where
   R := fun x y => OnlyAdds x y
@@ -131,7 +131,7 @@ def onlyAddsRel : RMRel where
   bnd := onlyAdds_bnd
   mapErr := onlyAdds_mapErr
   captured := onlyAdds_captured
-  cleanup := onlyAdds_cleanup
+  bracket := onlyAdds_bracket
   throwL := fun e _ hk _ o => Or.inr ⟨e, o, rfl, hk⟩
 
 /-- **Strict mode only adds errors.**  For ANY template, data, registry, state, writer and fuel: the
